@@ -34,6 +34,7 @@ type Atom struct {
 	May  bool         // comes from a defer that does not dominate this exit
 	Lit  *ast.FuncLit // innermost inlined literal containing the node (nil = function body proper)
 	Deferred bool
+	Seq  ast.Node // fail-fast chain group (base chain.New call): runs iff all earlier atoms of the group ran
 }
 
 type deferRec struct {
@@ -45,8 +46,8 @@ type deferRec struct {
 }
 
 type deferAtom struct {
-	n   ast.Node
-	may bool
+	n  ast.Node
+	fl atomFlags
 }
 
 type litMode int
@@ -136,32 +137,35 @@ func (c *Ctx) newFlow(name string, info *types.Info, body *ast.BlockStmt) *Flow 
 			continue
 		}
 		var list []*Atom
+		add := func(n ast.Node, fl atomFlags) {
+			list = append(list, &Atom{N: n, Blk: b, Lit: fl.lit, May: fl.may, Seq: fl.seq})
+		}
 		for _, n := range b.Nodes {
 			if ds, ok := n.(*ast.DeferStmt); ok {
 				rec := &deferRec{stmt: ds, blk: b, idx: len(list)}
 				// arguments are evaluated now; the call (and an IIFE body) runs at exit
 				for _, a := range ds.Call.Args {
-					f.collect(a, nil, func(n ast.Node, lit *ast.FuncLit, may bool) { list = append(list, &Atom{N: n, Blk: b, Lit: lit, May: may}) })
+					f.collect(a, atomFlags{}, add)
 				}
 				if lit, ok := ast.Unparen(ds.Call.Fun).(*ast.FuncLit); ok {
 					rec.lit = lit
-					f.inlineBody(lit, false, func(n ast.Node, l *ast.FuncLit, may bool) { rec.atoms = append(rec.atoms, deferAtom{n, may}) })
+					f.inlineBody(lit, atomFlags{}, func(n ast.Node, fl atomFlags) { rec.atoms = append(rec.atoms, deferAtom{n, fl}) })
 				} else {
-					f.collect(ds.Call.Fun, nil, func(n ast.Node, l *ast.FuncLit, may bool) { rec.atoms = append(rec.atoms, deferAtom{n, may}) })
+					f.collect(ds.Call.Fun, atomFlags{}, func(n ast.Node, fl atomFlags) { rec.atoms = append(rec.atoms, deferAtom{n, fl}) })
 				}
-				rec.atoms = append(rec.atoms, deferAtom{ds.Call, false})
+				rec.atoms = append(rec.atoms, deferAtom{ds.Call, atomFlags{}})
 				f.defers = append(f.defers, rec)
 				list = append(list, &Atom{N: ds, Blk: b})
 				continue
 			}
 			if gs, ok := n.(*ast.GoStmt); ok {
 				for _, a := range gs.Call.Args {
-					f.collect(a, nil, func(n ast.Node, lit *ast.FuncLit, may bool) { list = append(list, &Atom{N: n, Blk: b, Lit: lit, May: may}) })
+					f.collect(a, atomFlags{}, add)
 				}
 				list = append(list, &Atom{N: gs, Blk: b})
 				continue
 			}
-			f.collect(n, nil, func(n ast.Node, lit *ast.FuncLit, may bool) { list = append(list, &Atom{N: n, Blk: b, Lit: lit, May: may}) })
+			f.collect(n, atomFlags{}, add)
 		}
 		for i, a := range list {
 			a.Idx = i
@@ -183,7 +187,7 @@ func (c *Ctx) newFlow(name string, info *types.Info, body *ast.BlockStmt) *Flow 
 				}
 				may := !f.mustPass(d.blk, b)
 				for _, da := range d.atoms {
-					ex = append(ex, &Atom{N: da.n, Blk: b, May: may || da.may, Lit: d.lit, Deferred: true})
+					ex = append(ex, &Atom{N: da.n, Blk: b, May: may || da.fl.may, Seq: da.fl.seq, Lit: d.lit, Deferred: true})
 				}
 			}
 			base := len(f.atoms[b])
@@ -196,139 +200,241 @@ func (c *Ctx) newFlow(name string, info *types.Info, body *ast.BlockStmt) *Flow 
 	return f
 }
 
+type atomFlags struct {
+	lit *ast.FuncLit
+	may bool     // not certainly executed when control passes here
+	seq ast.Node // fail-fast chain group: executes iff every earlier atom of the group executed
+}
+
+type emitFn func(n ast.Node, fl atomFlags)
+
+// chainCall classifies x as a call of an internal/chain method on a chain
+// expression; returns the base chain.New(...) call and whether it is fail-fast.
+func (f *Flow) chainCall(x *ast.CallExpr) (base *ast.CallExpr, failFast bool, method string, ok bool) {
+	fn := callee(f.Info, x)
+	if fn == nil || fn.Pkg() == nil || fn.Pkg().Path() != modPath+"/internal/chain" {
+		return nil, false, "", false
+	}
+	sig := fn.Type().(*types.Signature)
+	if sig.Recv() == nil {
+		return nil, false, "", false
+	}
+	method = fn.Name()
+	// walk down the receiver chain to chain.New(...)
+	var cur ast.Expr = x
+	for {
+		call, isCall := ast.Unparen(cur).(*ast.CallExpr)
+		if !isCall {
+			return nil, false, method, false
+		}
+		cf := callee(f.Info, call)
+		if cf != nil && cf.Pkg() != nil && cf.Pkg().Path() == modPath+"/internal/chain" && cf.Name() == "New" && cf.Type().(*types.Signature).Recv() == nil {
+			base = call
+			for _, a := range call.Args {
+				if ac, ok := ast.Unparen(a).(*ast.CallExpr); ok {
+					if af := callee(f.Info, ac); af != nil && af.Name() == "WithFailFast" {
+						failFast = true
+					}
+				}
+			}
+			return base, failFast, method, true
+		}
+		sel, isSel := ast.Unparen(call.Fun).(*ast.SelectorExpr)
+		if !isSel {
+			return nil, false, method, false
+		}
+		cur = sel.X
+	}
+}
+
 // collect walks n in post-order; literals are inlined or skipped by policy.
-// Nodes in the right operand of && / || and in the body of an inlined literal
-// that is not certainly executed are flagged "may" (not guaranteed to run).
-func (f *Flow) collect(n ast.Node, cur *ast.FuncLit, emit func(ast.Node, *ast.FuncLit, bool)) {
+// Nodes in the right operand of && / || and in conditionally executed parts of
+// an inlined literal are flagged "may" (not guaranteed to run). Runners of a
+// fail-fast chain are flagged as a sequence group.
+func (f *Flow) collect(n ast.Node, fl atomFlags, emit emitFn) {
 	if n == nil {
 		return
 	}
-	var walk func(n ast.Node, cur *ast.FuncLit, may bool)
-	walk = func(n ast.Node, cur *ast.FuncLit, may bool) {
+	var walk func(n ast.Node, fl atomFlags)
+	walk = func(n ast.Node, fl atomFlags) {
 		switch x := n.(type) {
 		case nil:
 			return
 		case *ast.FuncLit:
-			// reached only when not handled by the parent CallExpr: skipped
-			emit(x, cur, may)
+			// reached only when not placed by the parent CallExpr: skipped
+			emit(x, fl)
 			return
 		case *ast.BinaryExpr:
 			if x.Op == token.LAND || x.Op == token.LOR {
-				walk(x.X, cur, may)
-				walk(x.Y, cur, true)
-				emit(x, cur, may)
+				walk(x.X, fl)
+				r := fl
+				r.may, r.seq = true, nil
+				walk(x.Y, r)
+				emit(x, fl)
 				return
 			}
 		case *ast.CallExpr:
 			// IIFE
 			if lit, ok := ast.Unparen(x.Fun).(*ast.FuncLit); ok {
 				for _, a := range x.Args {
-					walk(a, cur, may)
+					walk(a, fl)
 				}
-				f.inlineBody(lit, may, emit)
-				emit(x, cur, may)
+				f.inlineBody(lit, fl, emit)
+				emit(x, fl)
 				return
 			}
-			walk(x.Fun, cur, may)
-			mode := litSkip
+			if base, failFast, method, ok := f.chainCall(x); ok {
+				gfl := fl
+				if failFast {
+					gfl.may, gfl.seq = true, base
+				}
+				if method == "Run" || !failFast {
+					walk(x.Fun, fl)
+				} else {
+					walk(x.Fun, gfl) // earlier runners first; selector atoms stay in the group
+				}
+				for _, a := range x.Args {
+					if lit, ok := ast.Unparen(a).(*ast.FuncLit); ok {
+						rf := gfl
+						if strings.HasSuffix(method, "If") {
+							rf.may, rf.seq = true, nil
+						}
+						f.inlineBody(lit, rf, emit)
+						continue
+					}
+					walk(a, fl)
+				}
+				emit(x, gfl)
+				return
+			}
+			walk(x.Fun, fl)
+			inline := false
 			if fn := callee(f.Info, x); fn != nil {
 				if _, ok := syncCombinators[qualifiedName(fn)]; ok {
-					mode = litInline
+					inline = true
 				}
 			}
 			for _, a := range x.Args {
-				if lit, ok := ast.Unparen(a).(*ast.FuncLit); ok && mode == litInline {
-					f.inlineBody(lit, true, emit)
+				if lit, ok := ast.Unparen(a).(*ast.FuncLit); ok && inline {
+					r := fl
+					r.may, r.seq = true, nil
+					f.inlineBody(lit, r, emit)
 					continue
 				}
-				walk(a, cur, may)
+				walk(a, fl)
 			}
-			emit(x, cur, may)
+			emit(x, fl)
 			return
 		}
 		// generic: children first, then the node
-		children(n, func(ch ast.Node) { walk(ch, cur, may) })
-		emit(n, cur, may)
+		children(n, func(ch ast.Node) { walk(ch, fl) })
+		emit(n, fl)
 	}
-	walk(n, cur, false)
+	walk(n, fl)
 }
 
-// inlineBody places the statements of an inlined literal: straight-line
-// prefix statements keep the caller's certainty, everything inside compound
-// statements is "may".
-func (f *Flow) inlineBody(lit *ast.FuncLit, may bool, emit func(ast.Node, *ast.FuncLit, bool)) {
-	var walkStmt func(s ast.Stmt, may bool)
-	walkStmt = func(s ast.Stmt, may bool) {
-		switch x := s.(type) {
-		case *ast.BlockStmt:
-			for _, st := range x.List {
-				walkStmt(st, may)
-				if _, ok := st.(*ast.ReturnStmt); ok {
-					break
-				}
-			}
+// inlineBody places the statements of an inlined literal: top-level
+// straight-line statements keep the given certainty until the first statement
+// that can return early; everything nested in compound statements is "may".
+func (f *Flow) inlineBody(lit *ast.FuncLit, fl atomFlags, emit emitFn) {
+	fl.lit = lit
+	uncertain := fl
+	uncertain.may, uncertain.seq = true, nil
+	cur := fl
+	for _, st := range lit.Body.List {
+		switch x := st.(type) {
 		case *ast.ExprStmt, *ast.AssignStmt, *ast.IncDecStmt, *ast.SendStmt, *ast.DeclStmt, *ast.ReturnStmt:
-			f.collect(s, lit, func(n ast.Node, l *ast.FuncLit, m bool) {
-				if l == nil {
-					l = lit
-				}
-				emit(n, l, may || m)
-			})
+			f.collect(st, cur, emit)
 		case *ast.IfStmt:
 			if x.Init != nil {
-				walkStmt(x.Init, may)
+				f.collect(x.Init, cur, emit)
 			}
-			f.collect(x.Cond, lit, func(n ast.Node, l *ast.FuncLit, m bool) { emit(n, lit, may || m) })
-			walkStmt(x.Body, true)
+			f.collect(x.Cond, cur, emit)
+			f.collectAll(x.Body, uncertain, emit)
 			if x.Else != nil {
-				walkStmt(x.Else, true)
+				f.collectAll(x.Else, uncertain, emit)
 			}
-			// statements after an if whose body returns are conditional too: handled by caller via 'may' of later stmts? keep certainty (over-approximation only affects must-rules conservatively below)
 		default:
-			// loops, switches, selects, defers, go: contents are "may"
-			ast.Inspect(s, func(n ast.Node) bool {
-				if n == nil {
-					return true
-				}
-				if _, ok := n.(*ast.FuncLit); ok {
-					emit(n, lit, true)
-					return false
-				}
-				return true
-			})
-			f.collect2(s, lit, emit)
+			f.collectAll(st, uncertain, emit)
 		}
-	}
-	// a body with an early conditional return makes later statements uncertain
-	uncertain := may
-	for _, st := range lit.Body.List {
-		walkStmt(st, uncertain)
 		if containsReturn(st) {
-			uncertain = true
+			if _, isRet := st.(*ast.ReturnStmt); !isRet {
+				cur = uncertain
+			}
 		}
 	}
 }
 
-// collect2 emits every sub-node of a compound statement as "may".
-func (f *Flow) collect2(s ast.Stmt, lit *ast.FuncLit, emit func(ast.Node, *ast.FuncLit, bool)) {
-	ast.Inspect(s, func(n ast.Node) bool {
-		if n == nil {
-			return true
+// collectAll emits every sub-node of a (compound) statement with the given
+// flags, in post-order, placing nested literals by the usual policy.
+func (f *Flow) collectAll(s ast.Node, fl atomFlags, emit emitFn) {
+	switch x := s.(type) {
+	case *ast.BlockStmt:
+		for _, st := range x.List {
+			f.collectAll(st, fl, emit)
 		}
-		if _, ok := n.(*ast.FuncLit); ok {
-			return false
+	case *ast.IfStmt:
+		if x.Init != nil {
+			f.collect(x.Init, fl, emit)
 		}
-		return true
-	})
-	var post func(n ast.Node)
-	post = func(n ast.Node) {
-		if _, ok := n.(*ast.FuncLit); ok {
-			return
+		f.collect(x.Cond, fl, emit)
+		f.collectAll(x.Body, fl, emit)
+		if x.Else != nil {
+			f.collectAll(x.Else, fl, emit)
 		}
-		children(n, post)
-		emit(n, lit, true)
+	case *ast.ForStmt:
+		if x.Init != nil {
+			f.collect(x.Init, fl, emit)
+		}
+		if x.Cond != nil {
+			f.collect(x.Cond, fl, emit)
+		}
+		f.collectAll(x.Body, fl, emit)
+		if x.Post != nil {
+			f.collect(x.Post, fl, emit)
+		}
+	case *ast.RangeStmt:
+		f.collect(x.X, fl, emit)
+		f.collectAll(x.Body, fl, emit)
+	case *ast.SwitchStmt:
+		if x.Init != nil {
+			f.collect(x.Init, fl, emit)
+		}
+		if x.Tag != nil {
+			f.collect(x.Tag, fl, emit)
+		}
+		f.collectAll(x.Body, fl, emit)
+	case *ast.TypeSwitchStmt:
+		if x.Init != nil {
+			f.collect(x.Init, fl, emit)
+		}
+		f.collect(x.Assign, fl, emit)
+		f.collectAll(x.Body, fl, emit)
+	case *ast.CaseClause:
+		for _, e := range x.List {
+			f.collect(e, fl, emit)
+		}
+		for _, st := range x.Body {
+			f.collectAll(st, fl, emit)
+		}
+	case *ast.SelectStmt:
+		f.collectAll(x.Body, fl, emit)
+	case *ast.CommClause:
+		if x.Comm != nil {
+			f.collect(x.Comm, fl, emit)
+		}
+		for _, st := range x.Body {
+			f.collectAll(st, fl, emit)
+		}
+	case *ast.LabeledStmt:
+		f.collectAll(x.Stmt, fl, emit)
+	case *ast.DeferStmt, *ast.GoStmt:
+		// nested defer/go inside an inlined literal: only note the statement
+		emit(x, fl)
+	case nil:
+	default:
+		f.collect(s, fl, emit)
 	}
-	post(s)
 }
 
 func containsReturn(s ast.Stmt) bool {
@@ -557,9 +663,35 @@ func (f *Flow) search(sp searchSpec) *Witness {
 			if sp.target != nil && sp.target(a.N) {
 				return mk(it, a, nil)
 			}
-			if sp.avoid != nil && !a.May && sp.avoid(a.N) {
-				stopped = true
-				break
+			if sp.avoid != nil && sp.avoid(a.N) {
+				if !a.May {
+					stopped = true
+					break
+				}
+				if a.Seq != nil {
+					// the rest of this fail-fast chain runs only if a ran: skip it, and
+					// continue knowing the chain's Run() returned an error
+					for i+1 < len(atoms) && atoms[i+1].Seq == a.Seq {
+						i++
+					}
+					sub := sp
+					sub.starts = []*Atom{atoms[i]}
+					sub.startEdges = nil
+					sub.avoidEdges = map[Edge]bool{}
+					for e := range sp.avoidEdges {
+						sub.avoidEdges[e] = true
+					}
+					for e := range f.chainOKEdges(a.Seq) {
+						sub.avoidEdges[e] = true
+					}
+					if w := f.search(sub); w != nil {
+						pre := mk(it, nil, nil)
+						w.Blocks = append(pre.Blocks, w.Blocks...)
+						return w
+					}
+					stopped = true
+					break
+				}
 			}
 		}
 		if stopped {
@@ -583,6 +715,21 @@ func (f *Flow) search(sp searchSpec) *Witness {
 		}
 	}
 	return nil
+}
+
+// chainOKEdges: edges on which the error returned by the Run() of the chain
+// rooted at base is nil (every runner executed and succeeded).
+func (f *Flow) chainOKEdges(base ast.Node) map[Edge]bool {
+	m := func(n ast.Node) bool {
+		call, ok := n.(*ast.CallExpr)
+		if !ok {
+			return false
+		}
+		b, _, method, ok := f.chainCall(call)
+		return ok && b == base && method == "Run"
+	}
+	edges, _ := f.ErrEdgesOf(m, false)
+	return edges
 }
 
 // MustPrecede: on every path from entry, an A atom (or A edge) occurs before any B atom.
@@ -942,4 +1089,26 @@ func (f *Flow) lines(as []*Atom) string {
 	}
 	sort.Strings(s)
 	return strings.Join(s, ",")
+}
+
+// Dump renders the flow for debugging.
+func (f *Flow) Dump() string {
+	var sb strings.Builder
+	for _, b := range f.G.Blocks {
+		if !b.Live {
+			continue
+		}
+		fmt.Fprintf(&sb, "block %d (%s) succs=", b.Index, b.Kind)
+		for _, s := range b.Succs {
+			fmt.Fprintf(&sb, "%d ", s.Index)
+		}
+		sb.WriteString("\n")
+		for _, a := range f.blockAtoms(b) {
+			if _, ok := a.N.(*ast.CallExpr); !ok {
+				continue
+			}
+			fmt.Fprintf(&sb, "   [%d] %s %T may=%v seq=%v def=%v  %s\n", a.Idx, f.c.P.Pos(a.N.Pos()), a.N, a.May, a.Seq != nil, a.Deferred, types.ExprString(a.N.(ast.Expr)))
+		}
+	}
+	return sb.String()
 }
